@@ -29,7 +29,7 @@ RULE = (
     "of a minus-strand terminal row or a discard that strips a gap; distinct by SHA-1."
 )
 ASSUMPTIONS = [
-    "contig names are unique within the source scaffold (so a shortened terminal row identifies its source row)",
+    "contig names are unique within the source scaffold except for one deliberately duplicated piece in 1 of 6 cases (the checker then accepts any consistent placement)",
     "an operation that is not applicable (no rows left) ends the sequence; it is not a violation",
 ]
 
@@ -42,14 +42,13 @@ class Checker:
         self.asm = IndexedAssembly("a", scaffolds=[Scaffold("s", self.src)])
 
     def locate(self, row):
-        for k, s in enumerate(self.src):
-            if row is s:
-                return k
+        """candidate source indices for a (possibly shortened) row: identity first, else same contig name"""
+        ident = [k for k, s in enumerate(self.src) if row is s]
+        if ident:
+            return ident
         if isinstance(row, Fragment):
-            for k, s in enumerate(self.src):
-                if isinstance(s, Fragment) and s.name == row.name:
-                    return k
-        return None
+            return [k for k, s in enumerate(self.src) if isinstance(s, Fragment) and s.name == row.name]
+        return []
 
     def check(self, r, bait, where):
         rows = r.rows
@@ -62,9 +61,19 @@ class Checker:
             return
         if isinstance(rows[0], Gap) or isinstance(rows[-1], Gap):
             raise Violation(f"{where}: terminal gap left behind: {rows}")
-        i = self.locate(rows[0])
-        if i is None:
+        cands = self.locate(rows[0])
+        if not cands:
             raise Violation(f"{where}: first row {rows[0]} does not come from the source scaffold")
+        first_error = None
+        for i in cands:
+            try:
+                return self.check_at(i, r, bait, where)
+            except Violation as v:
+                first_error = first_error or v
+        raise first_error
+
+    def check_at(self, i, r, bait, where):
+        rows = r.rows
         j = i + len(rows) - 1
         if j >= len(self.src):
             raise Violation(f"{where}: rows run past the source scaffold")
@@ -189,6 +198,10 @@ def cases(draw):
     rows = draw(scaffold_rows(max_rows=8, strands=(1, -1, 1, -1, 0)))
     if not any(r[0] == "F" for r in rows):
         rows.insert(draw(st.integers(0, len(rows))), ["F", "cx", 3, 3 + draw(st.integers(0, 30)), draw(st.sampled_from([1, -1]))])
+    if draw(st.integers(0, 5)) == 0:
+        # the same contig piece occurs twice in the scaffold (equal but distinct rows), here first and last
+        first_frag = next(r for r in rows if r[0] == "F")
+        rows.append(list(first_frag))
     total = ref.rows_len(rows)
     spans = ref.layout(rows)
     anchors = sorted({1, total} | {s for s, _ in spans} | {e for _, e in spans})
